@@ -331,7 +331,7 @@ class Prims:
         s2 = st.fork()
         s2.assume(z3.Not(cb))
         b = self.eval1(ex, node.orelse, s2)
-        if is_sym(a) or is_sym(b) or isinstance(a, (int, bool)) and isinstance(b, (int, bool)):
+        if (is_sym(a) or is_sym(b) or isinstance(a, (int, bool)) and isinstance(b, (int, bool))) and a is not None and b is not None:
             return [(st, z3.If(cb, to_z3(a), to_z3(b)))]
         out = []
         if ex.feasible(s1):
@@ -1164,7 +1164,14 @@ class Prims:
             return [items[i] for i in order]
 
         R("builtins.sorted", m_sorted)
-        R("builtins.dict", lambda ex, st, a, k, n: dict(*a, **k))
+        def m_dict(ex, st, a, k, n):
+            if a and isinstance(a[0], ZipIter):
+                if a[0].concrete_len() is None:
+                    raise Unsupported("dict(zip(...)) of symbolic-length sequences")
+                a = [a[0].concrete_items()] + list(a[1:])
+            return dict(*a, **k)
+
+        R("builtins.dict", m_dict)
         R("builtins.set", lambda ex, st, a, k, n: GhostSet.empty() if not a else set(a[0]))
         R("numpy.cumsum", self.m_cumsum)
         R("numpy.diff", self.m_diff)
